@@ -21,6 +21,7 @@ class Case:
 class Property:
     id = "C00"
     lean_module = None          # e.g. RosuModel.Props.C05
+    theorem_modules = None      # files whose top-level theorems are listed and audited (default: lean_module alone)
     namespace = None            # e.g. Rosu.C05
     required_theorems = []      # short names that must exist and pass the audit
     partial_theorems = {}       # short name -> what is missing w.r.t. the property statement
@@ -100,7 +101,8 @@ def run(prop, tier, seed):
     audit_ok, audit_report = (False, {"skipped": "build failed"})
     discharged = 0
     if ok_build:
-        found = core.list_theorems(prop.lean_module, prop.namespace)
+        found = [t for m in (prop.theorem_modules or [prop.lean_module])
+                 for t in (core.list_theorems(m[0], m[1]) if isinstance(m, tuple) else core.list_theorems(m, prop.namespace))]
         for t in found:
             if t not in theorems:
                 theorems.append(t)
